@@ -635,10 +635,23 @@ class AbstractConstraintSet(AbstractConstraint):
         return iter(self._values)
 
     def __add__(self, value):
-        return self.__class__(*(self._values + (value,)))
+        return self._derive(self._values + (value,))
 
     def __radd__(self, value):
-        return self.__class__(*((value,) + self._values))
+        return self._derive((value,) + self._values)
+
+    def _derive(self, values):
+        constraint = self.__class__(*values)
+
+        if self._values and self._extensionNarrows:
+            # a set extended by one more constraint to satisfy admits
+            # a subset of values: it is derived from this one
+            constraint._valueMap.add(self)
+
+        return constraint
+
+    # whether adding a constraint to the set can only shrink the set of values
+    _extensionNarrows = False
 
     def __len__(self):
         return len(self._values)
@@ -692,6 +705,8 @@ class ConstraintsIntersection(AbstractConstraintSet):
         # this will raise ValueConstraintError
         capital_and_small = CapitalAndSmall('hello')
     """
+    _extensionNarrows = True
+
     def _testValue(self, value, idx):
         for constraint in self._values:
             constraint(value, idx)
